@@ -10,10 +10,11 @@ from props import prooflib as PL
 
 PID = 'C18'
 LEVEL = 'proof'
-LEAN_TARGETS = ['Swiftness.Props.C18']
+LEAN_TARGETS = ['Swiftness.Props.C18', 'Swiftness.Props.C18dyn']
+PROPS_FILES = ['C18', 'C18dyn']
 TRANSLATOR_PARTS = ('consts', 'ast')
-DRV_LAYOUTS = ['recursive', 'dex']
-BUILDS = {'quick': [('k160', 'stone5', 'full', 'all_layouts', 'parser')], 'thorough': [('k160', 'stone5', 'full', 'all_layouts', 'parser'), ('b248', 'stone6', 'full', 'all_layouts', 'parser')]}
+DRV_LAYOUTS = ['recursive', 'dex', 'dynamic']
+BUILDS = {'quick': [('k160', 'stone5', 'full', 'all_layouts', 'parser'), ('b248', 'stone6', 'full', 'all_layouts', 'parser')], 'thorough': [('k160', 'stone5', 'full', 'all_layouts', 'parser'), ('b248', 'stone6', 'full', 'all_layouts', 'parser')]}
 EXTREME = [0, 1, 2, 15, 16, 17, 48, 49, 64, 65, 255, 1 << 16, 1 << 32, 1 << 40, (1 << 64) - 1, 1 << 64, 1 << 128, (1 << 128) + 1, P - 2, P - 1]
 RULE = ('bases: fixture + shipped recursive/dex proofs (thorough: + all static layouts and the dynamic proof). every vector: emptied, truncated by '
         '1, truncated to 1, first element dropped (shift), lengthened by 1 and by 100; every numeric scalar at each extreme value '
@@ -21,7 +22,7 @@ RULE = ('bases: fixture + shipped recursive/dex proofs (thorough: + all static l
         'matching FRI/commitment configs, eval domain 2^65..2^87, composition columns 1/3, the column count of every table together with its decommitment length, FRI layer columns); pairs of the above. plus config validation and '
         'public-input validation taken alone (C11/C14 generators). non-trivial = all.')
 ASSUMPTIONS = ['a process abort (stack overflow, allocation failure) is recorded as a panic of that case; resource exhaustion itself is C17',
-               'panics of the dynamic layout are compared on the real code only (its evaluators are translated, its mod.rs is not modelled)']
+               'dynamic layout: Model/LayoutDynamic (hand model of mod.rs around the translated evaluators and assertion list), compared on a sample of the mutants']
 TRUSTED = ['Python oracle: outcome must be ok or err']
 HX = None
 
@@ -64,14 +65,18 @@ def redeclared(b, t, c=None, comp_cols=None):
 def cases(rng, tier, feats, drv_ok):
     out = []
     layouts = ('recursive', 'dex') if tier == 'quick' else ('dex', 'recursive', 'recursive_with_poseidon', 'small', 'starknet', 'starknet_with_keccak')
+    if fw.stone_of(feats) == 'stone6' and tier == 'quick':
+        layouts = ()          # quick: the stone6 build contributes the dynamic layout's proof only
     files = [(L, f'/repo/examples/proofs/{L}/cairo0_stone5_example_proof.json') for L in layouts] if fw.stone_of(feats) == 'stone5' else \
             [(L, f'/repo/examples/proofs/{L}/cairo0_stone6_example_proof.json') for L in layouts + ('dynamic',)]
     bases = PL.base_proofs(HX, tier, files=files)
+    if fw.stone_of(feats) == 'stone6' and tier == 'quick':
+        bases = [b for b in bases if b.layout == 'dynamic']
     k = 0
     def add(b, v, kind, pos):
         nonlocal k
         k += 1
-        out.append({'line': b.line(v), 'kind': kind, 'name': b.name, 'pos': pos, 'hxonly': (b.layout == 'dynamic') or (k % 9 != 0)})
+        out.append({'line': b.line(v), 'kind': kind, 'name': b.name, 'pos': pos, 'hxonly': k % (25 if b.layout == 'dynamic' else 9) != 0})
     for b in bases:
         add(b, b.v, 'base', '-')
         for i, path in b.vectors():
@@ -130,6 +135,14 @@ def cases(rng, tier, feats, drv_ok):
                 try: v = PL.setp(v, i2, p2, x)
                 except IndexError: pass        # the scalar lived in the vector that was just cut
             add(b, v, 'pair', f'{PL.TOK[i1]}+{PL.TOK[i2]}')
+    # the dynamic layout's autogenerated assertion list alone, on adversarial parameter vectors (no panic: Props/C18dyn; model agreement)
+    if 'all_layouts' in feats:
+        vals = [0, 1, 2, 3, 4, 8, 16, 64, 256, 1 << 12, 1 << 16, 1 << 20, 1 << 31, 1 << 32, 1 << 63, (1 << 64) - 1]
+        for n in range(60 if tier == 'quick' else 600):
+            mode = n % 4
+            dp = [rng.choice(vals) if mode == 0 else rng.choice([1, 2, 4, 8, 16, 32]) if mode == 1 else rng.bits(64) if mode == 2 else rng.choice([0, 1]) for _ in range(340)]
+            T = rng.choice([0, 1, 2, 1 << 10, 1 << 17, 1 << 30, 1 << 64, 3 << 20, P - 1])
+            out.append({'line': f"check_asserts dynamic {','.join(format(x, 'x') for x in dp)} {T:x}", 'kind': 'dynamic-asserts', 'name': 'check_asserts', 'pos': f'mode{mode}'})
     return out
 
 
